@@ -222,6 +222,9 @@ def main(argv=None):
         print(f"  obligation={o.oid} args={json.dumps(r['cex'])[:300]} :: {str(r.get('detail'))[:300]}")
 
     wall = time.time() - t0
+    if os.environ.get("VERIF_TIMING"):
+        for o in sorted(obs, key=lambda o: -float(results[o.oid].get("wall", 0)))[:12]:
+            print("TIMING", o.oid, results[o.oid].get("wall"), results[o.oid].get("paths"), results[o.oid]["verdict"])
     if not args.no_evidence and not args.only:
         write_evidence(mod, prop, tier, seed, obs, results, confirmed, inconclusive, known_hits, violations,
                        replayed, wall, side)
